@@ -102,8 +102,16 @@ func (x *c02G) reqID() (string, bool) {
 	return "r" + strconv.Itoa(x.seq), true
 }
 
-var c02GoodPv = []string{"1.2.0", "1.2.7", "1.2.10", "1.2.999"}
-var c02BadPv = []string{"1.3.0", "2.0.0", "0.9.1", "1.2", "junk", "", "01.2.0", "1.02.0", "1.2.0-rc1", "12.0.0"}
+// protocol_version values: components around 2^63 / 2^64 and of 19/20/21/40 digits are canonical
+// semver too (the gate compares them with arbitrary precision); only major.minor = 1.2 is admitted
+var c02GoodPv = []string{"1.2.0", "1.2.7", "1.2.10", "1.2.999", "1.2.18446744073709551615", "1.2.18446744073709551616",
+	"1.2.99999999999999999999", "1.2.9999999999999999999999999999999999999999", "1.2.9223372036854775808"}
+var c02BadPv = []string{"1.3.0", "2.0.0", "0.9.1", "1.2", "junk", "", "01.2.0", "1.02.0", "1.2.0-rc1", "12.0.0",
+	"18446744073709551615.0.0", "18446744073709551616.0.0", "18446744073709551616.2.0", "99999999999999999999.0.0",
+	"1.18446744073709551616.0", "1.99999999999999999999.0", "1.18446744073709551615.0", "9223372036854775807.2.0", "9223372036854775808.2.0",
+	"1.9223372036854775808.0", "1234567890123456789.2.0", "123456789012345678901.2.0", "1.123456789012345678901.0",
+	"9999999999999999999999999999999999999999.2.0", "1.9999999999999999999999999999999999999999.0", "+1.2.0", "-1.2.0", "1.-2.0", "1.+2.0",
+	"1.2.0\xff", "\xff", " 1.2.0", "1.2.0 ", "1..0", "..", "1.2.0.0", "١.٢.٠"}
 
 // meta builds the request batch metadata. goodPv: the effective protocol_version is admitted.
 func (x *c02G) meta(method string, goodPv bool) [][2]string {
